@@ -20,6 +20,7 @@ class Lemma:
     expr: str             # L1 Bool expression over vars
     proof: str            # Lean proof text (after `:=`)
     why: str = ""
+    imports: tuple = ()   # extra Lean modules the proof needs
 
 
 @dataclass
@@ -109,6 +110,7 @@ def lean_list(s: str) -> str:
 def lemmas_lean(lemmas, imports=("HV.Consts",), cfg="realCfg"):
     em = LeanEmitter()
     em.cfg_name = cfg
+    imports = list(imports) + sorted({m for lm in lemmas for m in lm.imports if m not in imports})
     L = [f"import {m}" for m in imports] + ["/- GENERATED on every run (hv/ground.py): statements are L1 expressions emitted by hv.emit_lean;",
          "   the same expressions are instantiated as SMT axioms iff this module compiles. -/", "set_option linter.unusedVariables false", "namespace HV", ""]
     for lm in lemmas:
@@ -127,4 +129,18 @@ def all_gconds(ctx):
     return out
 
 
-EXTRA_GCONDS = []
+def _module_gconds(ctx):
+    """import / class-structure facts read from the AST of this run"""
+    import ast as _ast
+    out = []
+    init = ctx.src.module("htmltools")
+    ok = any(isinstance(n, _ast.ImportFrom) and n.level == 1 and n.module == "_util" and any(a.name == "html_escape" and a.asname is None for a in n.names) for n in init.body)
+    rebound = any(isinstance(n, (_ast.Assign, _ast.FunctionDef)) and "html_escape" in [getattr(t, "id", None) for t in _ast.walk(n) if isinstance(t, _ast.Name) and isinstance(t.ctx, _ast.Store)] + [getattr(n, "name", None)] for n in init.body)
+    out.append(GCond("G:htmltools.html_escape:reexport", ok and not rebound, "htmltools.html_escape is htmltools._util.html_escape"))
+    cls = ctx.src.find_class("htmltools._core.HTML")
+    meths = [n.name for n in cls.body if isinstance(n, _ast.FunctionDef)]
+    out.append(GCond("G:HTML:no__iadd__", "__iadd__" not in meths and "__mul__" not in meths, f"HTML defines {meths}: += is + (A4)"))
+    return out
+
+
+EXTRA_GCONDS = [_module_gconds]
